@@ -537,7 +537,7 @@ func conditionalCleanup(s *an.PathState, open an.Event) bool {
 		if !(e.Kind == "call" && e.Deferred) {
 			continue
 		}
-		cf, fv, ok := deferredBody(s, e)
+		cf, fv, snap, ok := deferredBody(s, e)
 		if !ok {
 			continue
 		}
@@ -552,7 +552,7 @@ func conditionalCleanup(s *an.PathState, open an.Event) bool {
 			removes := false
 			for _, ce := range cs.Events {
 				if ce.Kind == "call" && ce.Callee == "os.Remove" && len(ce.Args) == 1 {
-					a := an.SubstFree(ce.Args[0], fv, e.AtExit, an.FnName(cf))
+					a := an.SubstFree(ce.Args[0], fv, snap, an.FnName(cf))
 					if a.K == open.Args[0].K {
 						removes = true
 					}
@@ -566,7 +566,7 @@ func conditionalCleanup(s *an.PathState, open an.Event) bool {
 			// condition of this closure path, translated
 			condErrNonNil, condErrNil, other := false, false, false
 			for _, a := range cs.Atoms {
-				ta := an.SubstFree(a.A, fv, e.AtExit, an.FnName(cf))
+				ta := an.SubstFree(a.A, fv, snap, an.FnName(cf))
 				if a.B != nil && a.B.IsConst("nil") && ta.K == r.K {
 					if a.Op == "!=" {
 						condErrNonNil = true
